@@ -38,7 +38,7 @@ func gen(t *rapid.T) Case {
 	for i := 0; i < n; i++ {
 		l := fmt.Sprintf("e%d", i)
 		c.Endpoints = append(c.Endpoints, EP{
-			Identity:   rapid.SampledFrom([]string{"caA", "caA", "caB", "caB", "foreign", "selfsigned", "expired", "notyet", "wrongname"}).Draw(t, l+"I"),
+			Identity:   rapid.SampledFrom([]string{"caA", "caA", "caB", "caB", "foreign", "selfsigned", "expired", "notyet", "wrongname", "justexpired", "justvalid"}).Draw(t, l+"I"),
 			Proto:      rapid.SampledFrom([]string{"any", "any", "tls12", "tls13", "old"}).Draw(t, l+"P"),
 			ClientAuth: rapid.SampledFrom([]string{"none", "request", "require", "request-otherca", "verifyifgiven", "verifyifgiven-otherca"}).Draw(t, l+"C"),
 		})
@@ -73,7 +73,11 @@ func exec(c Case) (vh.Outcome, error) {
 	genuine := func(e EP) bool {
 		// a server that verifies the client certificate against a CA which did not issue the RA's
 		// certificate refuses the configured certificate: from the RA's side a failed endpoint
-		return (e.Identity == "caA" || e.Identity == "caB") && trusted[e.Identity] && e.Proto != "old" && e.ClientAuth != "verifyifgiven-otherca"
+		issuer := e.Identity
+		if issuer == "justvalid" {
+			issuer = "caA" // issued by CA A 20 s ago: as genuine as an older one
+		}
+		return (issuer == "caA" || issuer == "caB") && trusted[issuer] && e.Proto != "old" && e.ClientAuth != "verifyifgiven-otherca"
 	}
 	var specs []vh.CAServerSpec
 	var ips []string
@@ -180,7 +184,7 @@ func exec(c Case) (vh.Outcome, error) {
 	return out, nil
 }
 
-const rule = "CA bundles of one or two files (single CA, the other CA, both as separate files, both in one file, a file listed twice) and, 4 in 13, degenerate ones (no file at all, empty paths, an empty path next to a real file: either refused as configuration, or no CA beyond the readable files is trusted); the 'foreign' CA is installed as this process's host trust store (SSL_CERT_FILE), i.e. it stands for a publicly trusted CA that is not configured; 1..3 endpoints on loopback aliases, each a real gRPC-over-TLS server with identity {issued by configured CA A / CA B with matching IP SAN, by a foreign CA, self-signed, expired, not yet valid, valid for another address} x protocol range {TLS 1.0-1.1 only, 1.2 only, 1.3 only, any} x client-certificate policy {none, request, require+verify, request while naming another CA, verify-if-given against the right / another client CA}; every server would sign (each with its own certificate, so the answering server is identifiable). Oracle: Sign succeeds iff some endpoint is genuine (issued by a CA of the bundle, right address, valid now, speaks >= TLS 1.2) and the answer is the first such endpoint's; impostors never receive the RPC; negotiated version >= 1.2; when the server asked, the peer certificate is byte-identical to the configured client certificate. Non-trivial: at least one impostor in the list."
+const rule = "CA bundles of one or two files (single CA, the other CA, both as separate files, both in one file, a file listed twice) and, 4 in 13, degenerate ones (no file at all, empty paths, an empty path next to a real file: either refused as configuration, or no CA beyond the readable files is trusted); the 'foreign' CA is installed as this process's host trust store (SSL_CERT_FILE), i.e. it stands for a publicly trusted CA that is not configured; 1..3 endpoints on loopback aliases, each a real gRPC-over-TLS server with identity {issued by configured CA A / CA B with matching IP SAN, by a foreign CA, self-signed, expired a day ago / 20 s ago, not yet valid, valid since 20 s only (genuine), valid for another address} x protocol range {TLS 1.0-1.1 only, 1.2 only, 1.3 only, any} x client-certificate policy {none, request, require+verify, request while naming another CA, verify-if-given against the right / another client CA}; every server would sign (each with its own certificate, so the answering server is identifiable). Oracle: Sign succeeds iff some endpoint is genuine (issued by a CA of the bundle, right address, valid now, speaks >= TLS 1.2) and the answer is the first such endpoint's; impostors never receive the RPC; negotiated version >= 1.2; when the server asked, the peer certificate is byte-identical to the configured client certificate. Non-trivial: at least one impostor in the list."
 
 func TestC18TLS(t *testing.T) {
 	vh.Run(t, vh.Spec[Case]{Property: "C18", Name: "TestC18TLS", Rule: rule, Gen: gen, Exec: exec})
@@ -189,7 +193,7 @@ func TestC18TLS(t *testing.T) {
 // TestC18Grid enumerates identity x protocol x client-auth for a single endpoint followed by a genuine one.
 func TestC18Grid(t *testing.T) {
 	var cases []Case
-	for _, id := range []string{"caA", "caB", "foreign", "selfsigned", "expired", "notyet", "wrongname"} {
+	for _, id := range []string{"caA", "caB", "foreign", "selfsigned", "expired", "notyet", "wrongname", "justexpired", "justvalid"} {
 		for _, pr := range []string{"old", "tls12", "tls13", "any"} {
 			for _, ca := range []string{"none", "request", "require", "request-otherca", "verifyifgiven", "verifyifgiven-otherca"} {
 				cases = append(cases, Case{Bundle: []string{"caA"}, Endpoints: []EP{{id, pr, ca}, {"caA", "any", "request"}}})
@@ -205,6 +209,6 @@ func TestC18Grid(t *testing.T) {
 		}
 	}
 	vh.Enumerate(t, vh.Spec[Case]{Property: "C18", Name: "TestC18Grid", Exhaustive: true,
-		Rule: "bundle = CA A; first endpoint: 7 identities x 4 protocol ranges x 6 client-certificate policies (168 points), second endpoint genuine: the later genuine endpoint must be used exactly when the first is an impostor; plus 5 degenerate bundles (no file, one or two empty paths, an empty path before / after CA A) x 7 identities x 2 client-certificate policies (70 points; the foreign CA is the host-trusted one); same oracle",
+		Rule: "bundle = CA A; first endpoint: 9 identities x 4 protocol ranges x 6 client-certificate policies (216 points), second endpoint genuine: the later genuine endpoint must be used exactly when the first is an impostor; plus 5 degenerate bundles (no file, one or two empty paths, an empty path before / after CA A) x 7 identities x 2 client-certificate policies (70 points; the foreign CA is the host-trusted one); same oracle",
 		Exec: exec}, cases)
 }
